@@ -11,6 +11,8 @@ CONSTANTS
   CRProg <- RQ_CR
   Forms = {"fresh"}
   Colls = {}
+  LAs <- NoLA_RQ
+  DropOn = FALSE
   QuitOn = FALSE
   QuitDeferred = FALSE
   DefCap = 1
